@@ -280,6 +280,9 @@ func (s *Sys) TryUnseal(keys [][]byte) (bool, error) {
 func Boot(t *testing.T, img *Image) *Sys {
 	sched.InstallDetRand(0x5eed)
 	sched.ResetDetRand()
+	if img.Rec != nil {
+		img.Rec.ResetCounts()
+	}
 	s, err := BootData(t, img.Data, img)
 	if err != nil {
 		t.Fatalf("harness: boot from image failed: %v", err)
